@@ -432,8 +432,58 @@ func (c *Ctx) mergeStates(es []edgeState) *State {
 // obligeCase records "pc && hyp ==> cond" without assuming it afterwards
 // (the cases of a split are independent).
 func (c *Ctx) obligeCase(st *State, kind, text string, hyp, cond *Term) {
+	if parts := splitGoal(cond, 0); len(parts) > 1 && len(parts) <= 64 {
+		for i, p := range parts {
+			c.obligeCase1(st, kind, fmt.Sprintf("%s[%d/%d]", text, i+1, len(parts)), hyp, p)
+		}
+		return
+	}
+	c.obligeCase1(st, kind, text, hyp, cond)
+}
+
+// splitGoal splits a goal into independent conjuncts (A ==> (B && C) becomes
+// A ==> B and A ==> C), so that each is its own small query.
+func splitGoal(t *Term, depth int) []*Term {
+	if depth > 6 {
+		return []*Term{t}
+	}
+	if t.Op == "and" {
+		var out []*Term
+		for _, a := range t.Args {
+			out = append(out, splitGoal(a, depth+1)...)
+		}
+		return out
+	}
+	if t.Op == "or" {
+		idx := -1
+		for i, a := range t.Args {
+			if a.Op == "and" {
+				if idx >= 0 {
+					return []*Term{t}
+				}
+				idx = i
+			}
+		}
+		if idx >= 0 {
+			var out []*Term
+			for _, p := range splitGoal(t.Args[idx], depth+1) {
+				args := append([]*Term(nil), t.Args...)
+				args[idx] = p
+				out = append(out, Or(args...))
+			}
+			return out
+		}
+	}
+	return []*Term{t}
+}
+
+func (c *Ctx) obligeCase1(st *State, kind, text string, hyp, cond *Term) {
 	n := len(c.assumes)
 	sub := &State{pc: And(st.pc, hyp)}
-	c.oblige(sub, kind, text, 0, cond)
+	if c.curFrame != nil && c.curFrame.fn != nil {
+		c.oblige(sub, kind, text, c.curFrame.fn.Pos(), cond)
+	} else {
+		c.oblige(sub, kind, text, 0, cond)
+	}
 	c.assumes = c.assumes[:n]
 }
